@@ -299,6 +299,50 @@ class Ctx:
              " (violates %s as intended)" % expect_violation if expect_violation else ""))
         return rec
 
+    def apalache_ind(self, family, module, inv="IndInv", init="Init", ind_init="IndInit", next_="Next",
+                     cinit=None, timeout=600, expect_violation=False, label=None):
+        """Unbounded safety of a small integer/set-shaped specification by an inductive invariant,
+        discharged symbolically by Apalache: (1) Init => inv (length 0) and (2) ind_init /\ Next => inv'
+        (length 1, where ind_init states inv as the initial predicate).  With expect_violation the
+        step is *meant* to fail (non-vacuity witness: the invariant is not inductive for a deviation)."""
+        d = self._specdir(family)
+        t = time.time()
+        def run(initp, length, tag):
+            self.nrun += 1
+            out_dir = self.path("apa-%d" % self.nrun)
+            cmd = ["apalache-mc", "check", "--out-dir=" + out_dir, "--init=" + initp, "--next=" + next_,
+                   "--inv=" + inv, "--length=%d" % length]
+            if cinit:
+                cmd.append("--cinit=" + cinit)
+            cmd.append(module + ".tla")
+            try:
+                p = subprocess.run(cmd, cwd=d, env=self.env(None, ""), timeout=timeout,
+                                   stdout=subprocess.PIPE, stderr=subprocess.STDOUT)
+            except subprocess.TimeoutExpired:
+                raise MachineryError("apalache timeout after %ss on %s (%s)" % (timeout, module, tag))
+            out = p.stdout.decode("utf-8", "replace")
+            shutil.rmtree(out_dir, ignore_errors=True)
+            return p.returncode, out
+        rc0, out0 = run(init, 0, "base")
+        if rc0 != 0 or "NoError" not in out0:
+            raise MachineryError("apalache base case %s: Init => %s failed rc=%d\n%s" % (module, inv, rc0, out0[-3000:]))
+        rc1, out1 = run(ind_init, 1, "step")
+        rec = {"module": module, "cfg": "apalache --init=%s --inv=%s --length=1" % (ind_init, inv),
+               "generated": 0, "distinct": 0, "depth": 1, "wall_s": round(time.time() - t, 1),
+               "label": label or (module + " inductive invariant " + inv), "kind": "inductive_invariant (Apalache, unbounded)"}
+        if expect_violation:
+            if rc1 == 0 or "NoError" in out1 or "Error" not in out1:
+                raise MachineryError("expected %s not to be inductive in %s (non-vacuity witness) but apalache said rc=%d\n%s"
+                                     % (inv, module, rc1, out1[-3000:]))
+            rec["expected_violation"] = inv
+        elif rc1 != 0 or "NoError" not in out1:
+            raise MachineryError("apalache inductive step %s: %s /\\ %s => %s' failed rc=%d\n%s"
+                                 % (module, ind_init, next_, inv, rc1, out1[-3000:]))
+        self.mc.append(rec)
+        log("[apalache] %s: %s is inductive (Init => Inv, Inv /\\ Next => Inv'), %.1fs%s" %
+            (module, inv, rec["wall_s"], " (step violated as intended)" if expect_violation else ""))
+        return rec
+
     @staticmethod
     def _coverage(out):
         never = []
